@@ -1087,6 +1087,10 @@ func (e *Enc) instr(fr *Frame, st *State, in ssa.Instruction) *State {
 			n = e.setVal(fr, x, fmt.Sprintf("(mk_Iface %d %s)", tag, bx))
 		}
 		e.mkIfaces = append(e.mkIfaces, mkIfaceRec{n, t, v})
+		if isPointerShaped(t) {
+			// a node built by hcl-lang itself (newEmptyExpressionAtPos): its Range() is the body's
+			e.astRangeAxiom(fr, x.Type(), t, n, v, "true")
+		}
 		return st
 	case *ssa.FieldAddr:
 		t, s, ok := derefStruct(x.X.Type())
